@@ -192,6 +192,90 @@ func entryKV(e []byte) (k, v string, ok bool) {
 
 // ---- generators ------------------------------------------------------------------------------
 
+func leb(v uint64) []byte {
+	var b []byte
+	for v >= 128 {
+		b = append(b, byte(v)|0x80)
+		v >>= 7
+	}
+	return append(b, byte(v))
+}
+
+// lebVariants: the minimal encoding, padded by one byte, padded to ten bytes (non-minimal encodings are
+// accepted by ReadVarint), and for ten-byte encodings the same with bits in the tenth byte that do not
+// fit into 64 bits (dropped by ReadVarint).
+func lebVariants(v uint64) [][]byte {
+	m := leb(v)
+	out := [][]byte{m}
+	pad := func(n int) []byte {
+		b := append([]byte(nil), m...)
+		b[len(b)-1] |= 0x80
+		for len(b) < n-1 {
+			b = append(b, 0x80)
+		}
+		return append(b, 0x00)
+	}
+	if len(m) < 10 {
+		out = append(out, pad(len(m)+1))
+	}
+	if len(m) < 9 {
+		out = append(out, pad(10))
+	}
+	if len(m) == 10 {
+		o1 := append([]byte(nil), m...)
+		o1[9] |= 0x02
+		o2 := append([]byte(nil), m...)
+		o2[9] |= 0x7e
+		out = append(out, o1, o2)
+	}
+	return out
+}
+
+var hostileLengths = []uint64{1<<31 - 1, 1 << 31, 1 << 32, 1 << 62, 1<<63 - 1, 1 << 63, 1<<63 + 1, 1<<64 - 2, 1<<64 - 1}
+
+type hostileInput struct {
+	pos   string // outer, key, value
+	bytes []byte
+}
+
+// hostilePositions: entries `0a <outer> 0a <klen> k 12 <vlen> v` in which exactly one of the three
+// lengths is hostile and the others are the true lengths of what follows them.
+func hostilePositions() []hostileInput {
+	var out []hostileInput
+	good := refEntry("g", "ood")
+	cat := func(parts ...[]byte) []byte {
+		var b []byte
+		for _, p := range parts {
+			b = append(b, p...)
+		}
+		return b
+	}
+	tails := [][]byte{nil, []byte("v"), []byte("vvvvvvvvvvvvvvvvvvvv")}
+	for _, h := range hostileLengths {
+		for _, enc := range lebVariants(h) {
+			for _, tail := range tails {
+				var shapes []hostileInput
+				// value length hostile
+				inner := cat([]byte{0x0a, 0x01, 'k', 0x12}, enc, tail)
+				shapes = append(shapes, hostileInput{"value", cat([]byte{0x0a}, leb(uint64(len(inner))), inner)})
+				// key length hostile
+				inner = cat([]byte{0x0a}, enc, tail, []byte{0x12, 0x01, 'v'})
+				shapes = append(shapes, hostileInput{"key", cat([]byte{0x0a}, leb(uint64(len(inner))), inner)})
+				inner = cat([]byte{0x0a}, enc, tail)
+				shapes = append(shapes, hostileInput{"key", cat([]byte{0x0a}, leb(uint64(len(inner))), inner)})
+				// outer length hostile
+				shapes = append(shapes, hostileInput{"outer", cat([]byte{0x0a}, enc, []byte{0x0a, 0x01, 'k', 0x12, 0x01, 'v'}, tail)})
+				for _, sh := range shapes {
+					out = append(out, sh,
+						hostileInput{sh.pos, cat(good, sh.bytes)},
+						hostileInput{sh.pos, cat(sh.bytes, good)})
+				}
+			}
+		}
+	}
+	return out
+}
+
 var boundaryLens = []int{0, 1, 127, 128, 16383, 16384}
 
 func randString(o *corr.Out, allowBig bool) string {
@@ -515,6 +599,15 @@ func runCodec(o *corr.Out) {
 				decode(append(append([]byte(nil), b...), 0x76), "hostile")
 			}
 		}
+	}
+	// hostile length in ONE position, the other two consistent, so that the decoder gets as far as the
+	// check of that position (in the triple loop above a 10-byte length in the value position is never
+	// reached: the outer length would have to be 14): lengths around 2^31, 2^32, 2^62, 2^63 and 2^64,
+	// encoded minimally, padded by one byte, padded to ten bytes and with overflow bits in the tenth byte;
+	// followed by nothing / by the bytes a correct length would cover / by more; alone, after and in front
+	// of a well-formed entry
+	for _, b := range hostilePositions() {
+		decode(b.bytes, "hostile-"+b.pos)
 	}
 	// padded (non-minimal) but consistent lengths: accepted by design of ReadVarint
 	decode([]byte{0x0a, 0x86, 0x00, 0x0a, 0x01, 0x6b, 0x12, 0x01, 0x76}, "padded")
